@@ -546,6 +546,7 @@ func (c *tunnelChannel) recvLoop() {
 			c.close(err)
 			return
 		}
+		verifYield("client.recv.beforeAccept")
 		str.acceptServerFrame(in.Frame)
 	}
 }
